@@ -79,15 +79,15 @@ def Schema.sliceToJ (S : Schema) (sl : Slice) : J :=
 
 def structField (b : Bool) : List (String × J) := if b then [("structure", .bool true)] else []
 
-/-- `Step.to_json` for the eight kinds; the slice is emitted only when `slice.size` is non-zero -/
+/-- `Step.to_json` for the eight kinds; the slice is emitted whenever its content is non-empty -/
 def Schema.stepToJ (S : Schema) : Step → J
   | .replace f t sl st =>
     .obj ([("stepType", .str "replace"), ("from", .num f), ("to", .num t)]
-      ++ (if sl.size ≠ 0 then [("slice", S.sliceToJ sl)] else []) ++ structField st)
+      ++ (if fsize sl.content ≠ 0 then [("slice", S.sliceToJ sl)] else []) ++ structField st)
   | .replaceAround f t gf gt sl ins st =>
     .obj ([("stepType", .str "replaceAround"), ("from", .num f), ("to", .num t), ("gapFrom", .num gf),
       ("gapTo", .num gt), ("insert", .num ins)]
-      ++ (if sl.size ≠ 0 then [("slice", S.sliceToJ sl)] else []) ++ structField st)
+      ++ (if fsize sl.content ≠ 0 then [("slice", S.sliceToJ sl)] else []) ++ structField st)
   | .addMark f t m => .obj [("stepType", .str "addMark"), ("mark", S.markToJ m), ("from", .num f), ("to", .num t)]
   | .removeMark f t m => .obj [("stepType", .str "removeMark"), ("mark", S.markToJ m), ("from", .num f), ("to", .num t)]
   | .addNodeMark p m => .obj [("stepType", .str "addNodeMark"), ("pos", .num p), ("mark", S.markToJ m)]
@@ -130,9 +130,11 @@ def Schema.marksOfJ (S : Schema) (j : Option J) : Res Marks :=
     | _ => .error .valueError
 
 mutual
-/-- `Node.from_json` -/
-def Schema.nodeOfJ (S : Schema) : J → Res Node
-  | .obj kv =>
+/-- `Node.from_json`; `fuel` bounds the nesting depth of the JSON (the lookups by key hide the
+    structural descent from the termination checker) -/
+def Schema.nodeOfJ (S : Schema) : Nat → J → Res Node
+  | 0, _ => .error .internal
+  | fuel + 1, .obj kv =>
     let j := J.obj kv
     if kv.isEmpty then .error .valueError else
     match S.marksOfJ (j.get "marks") with
@@ -149,7 +151,7 @@ def Schema.nodeOfJ (S : Schema) : J → Res Node
         | some t =>
           let content : Res (List Node) :=
             match j.get "content" with
-            | some (.arr l) => S.kidsOfJ l
+            | some (.arr l) => S.kidsOfJ fuel l
             | some .null => .ok []
             | none => .ok []
             | _ => .error .valueError
@@ -160,26 +162,26 @@ def Schema.nodeOfJ (S : Schema) : J → Res Node
             | .error e => .error e
             | .ok a => if (S.nodeType t).isLeaf then .ok (.leaf t a marks) else .ok (.elem t a marks kids)
       | _ => .error .internal
-  | _ => .error .valueError
-def Schema.kidsOfJ (S : Schema) : List J → Res (List Node)
-  | [] => .ok []
-  | j :: js =>
-    match S.nodeOfJ j with
+  | _ + 1, _ => .error .valueError
+def Schema.kidsOfJ (S : Schema) : Nat → List J → Res (List Node)
+  | _, [] => .ok []
+  | fuel, j :: js =>
+    match S.nodeOfJ fuel j with
     | .error e => .error e
     | .ok n =>
-      match S.kidsOfJ js with
+      match S.kidsOfJ fuel js with
       | .error e => .error e
       | .ok ns => .ok (n :: ns)
 end
 
 /-- `Fragment.from_json` -/
-def Schema.fragOfJ (S : Schema) (j : Option J) : Res (List Node) :=
+def Schema.fragOfJ (S : Schema) (fuel : Nat) (j : Option J) : Res (List Node) :=
   match j with
   | none => .ok []
   | some v =>
     if !v.truthy then .ok [] else
     match v with
-    | .arr l => S.kidsOfJ l
+    | .arr l => S.kidsOfJ fuel l
     | _ => .error .valueError
 
 def natOfJ (j : Option J) : Option Nat :=
@@ -188,7 +190,7 @@ def natOfJ (j : Option J) : Option Nat :=
   | _ => none
 
 /-- `Slice.from_json` -/
-def Schema.sliceOfJ (S : Schema) (j : Option J) : Res Slice :=
+def Schema.sliceOfJ (S : Schema) (fuel : Nat) (j : Option J) : Res Slice :=
   match j with
   | none => .ok Slice.empty
   | some v =>
@@ -204,7 +206,7 @@ def Schema.sliceOfJ (S : Schema) (j : Option J) : Res Slice :=
       | some .null => some 0
       | _ => none
     match os, oe with
-    | some a, some b => (S.fragOfJ (v.get "content")).map (fun c => ⟨c, a, b⟩)
+    | some a, some b => (S.fragOfJ fuel (v.get "content")).map (fun c => ⟨c, a, b⟩)
     | _, _ => .error .valueError
 
 /-- the step registry: published names of the eight built-in step types -/
@@ -217,19 +219,19 @@ def boolOfJ (j : Option J) : Bool :=
   | none => false
 
 /-- `Step.from_json` (dispatch on `stepType` through the registry) -/
-def Schema.stepOfJ (S : Schema) (j : J) : Res Step :=
+def Schema.stepOfJ (S : Schema) (fuel : Nat) (j : J) : Res Step :=
   match j.get "stepType" with
   | some (.str ty) =>
     if !stepIds.contains ty then .error .valueError else
     match ty with
     | "replace" =>
       match natOfJ (j.get "from"), natOfJ (j.get "to") with
-      | some f, some t => (S.sliceOfJ (j.get "slice")).map (fun sl => .replace f t sl (boolOfJ (j.get "structure")))
+      | some f, some t => (S.sliceOfJ fuel (j.get "slice")).map (fun sl => .replace f t sl (boolOfJ (j.get "structure")))
       | _, _ => .error .valueError
     | "replaceAround" =>
       match natOfJ (j.get "from"), natOfJ (j.get "to"), natOfJ (j.get "gapFrom"), natOfJ (j.get "gapTo"), natOfJ (j.get "insert") with
       | some f, some t, some gf, some gt, some ins =>
-        (S.sliceOfJ (j.get "slice")).map (fun sl => .replaceAround f t gf gt sl ins (boolOfJ (j.get "structure")))
+        (S.sliceOfJ fuel (j.get "slice")).map (fun sl => .replaceAround f t gf gt sl ins (boolOfJ (j.get "structure")))
       | _, _, _, _, _ => .error .valueError
     | "addMark" =>
       match natOfJ (j.get "from"), natOfJ (j.get "to"), j.get "mark" with
